@@ -314,3 +314,55 @@ def queue_scenario(r, length=None):
         opens.append(t)
     events.sort(key=lambda x: x[0])
     return dict(cfg=tuple(cfg), insts=[], draws=[], events=events, end=end, rev=r.random() < 0.3, fuel=20000)
+
+
+def lifecycle_scenario(r):
+    """Directed at C10/C12: one or two instances, FindService requests placed shortly before, exactly at (both
+    orders) and after a stop, in every phase of the offer lifecycle, cyclic and non-cyclic, with and without collection."""
+    cfg = list(timings(r))
+    cfg[4] = r.choice([0, 1, 2, 3])            # repetitions
+    cfg[5] = r.choice([10 * MS, T // 8])        # base delay
+    cfg[6] = r.choice([0, 0, T, T // 2])        # cyclic period or none
+    cfg[11] = r.choice([0, 1, 5 * MS, 5 * MS, 20 * MS])
+    collect = cfg[11]
+    ninst = r.choice([1, 1, 2])
+    insts = [(i + 1, conv.s_service(SERVICES[i]), []) for i in range(ninst)]
+    d0 = r.choice([cfg[0], cfg[1]])
+    drr = r.choice([cfg[2], cfg[3]])
+    draws = [d0] * 8 if d0 == drr else ([d0] * 8 if r.random() < 0.5 else [drr] * 8)
+    d0 = max(cfg[0], min(cfg[1], draws[0]))
+    drr = max(cfg[2], min(cfg[3], draws[0]))
+    raw = [(0, ("api", [17, i + 1])) for i in range(ninst)]
+    raw.append((0, ("api", [0])))
+    # phase instants of the fault-free run
+    reps = [d0]
+    for i in range(cfg[4]):
+        reps.append(reps[-1] + (1 << i) * cfg[5])
+    phases = reps + ([reps[-1] + cfg[6], reps[-1] + 2 * cfg[6]] if cfg[6] else [reps[-1] + T // 4])
+    te = r.choice(phases) + r.choice([-1, 0, 1, collect // 2, T // 16, r.randrange(0, T // 2)])
+    te = max(1, te)
+    stop_api = r.choice([[16], [16], [1], [18, 1, True]])
+    peers = {a: Peer(a) for a in (1, 2)}
+    finds = []
+    for _ in range(r.randint(1, 4)):
+        a = r.choice([1, 2])
+        mc = r.random() < 0.4
+        off = r.choice([-collect - 1, -collect, -collect // 2 - 1, -1, 0, 0, 1, collect // 2, -drr, -drr - 1, -drr + 1, r.randrange(-T // 4, T // 4)])
+        f = r.choice([SERVICES[0], C.Service(0x1111), FILTERS[1]])
+        finds.append((max(0, te + off), ("dg", a, mc, [f.create_find_entry(3)])))
+    raw.extend(finds)
+    raw.append((te, ("api", stop_api)))
+    if r.random() < 0.5:
+        t2 = te + r.choice([1, collect, collect + 1, T // 2, T])
+        raw.append((t2, ("api", {16: [15], 1: [0], 18: [17, 1]}[stop_api[0]])))
+    # stable sort: events of one instant keep their relative order, which is randomised here
+    r.shuffle(raw)
+    raw.sort(key=lambda x: x[0])
+    events = []
+    for t, ev in raw:
+        if ev[0] == "dg":
+            _, a, mc, es = ev
+            events.append((t, (0, a, mc, peers[a].datagram(es, mc))))
+        else:
+            events.append((t, (1, ev[1])))
+    return dict(cfg=tuple(cfg), insts=insts, draws=draws, events=events, end=max(te + 3 * T, 4 * T), rev=r.random() < 0.3, fuel=20000)
